@@ -1,5 +1,6 @@
 import JsonVerif.Lemmas.Mapped
 import JsonVerif.Lemmas.Spans
+import JsonVerif.Lemmas.MappedKeyed
 import JsonVerif.Model.Entry
 /-!
 # C11 — Code-map offsets navigate correctly (mapped iterators, fragment index, TryFrom)
@@ -71,15 +72,21 @@ theorem C11_parsed_object (cs : List Char) (es : List (Key × JValue)) (cm : Lis
   have := C11_object cm es [] [] (by simpa using parse_volumes h)
   simpa using this
 
-/-- Keyed mapped lookups (`get_mapped*`, `get_unique_mapped*`): full statement, not yet proved in
-    Lean (needs the C06 invariant for "indexes ascending" plus the advance-loop lemma); covered by
-    the correspondence stream and by the direct oracle "= the iter_mapped entries carrying the key". -/
-def C11_keyed_full : Prop :=
-  ∀ (cm : List CMEntry) (o : Obj) (pre post : List Nat) (k : Key),
-    volumes cm = pre ++ volsV (.object o.entries) ++ post →
+/-- **Keyed mapped lookups** (`get_mapped*`, `get_unique_mapped*`, `get_mapped_entries*`): under the
+    C06 invariant (which every reachable object satisfies: C06_reachable) and a well-formed volume
+    column, they never panic and yield, for exactly the entries carrying the key and in entry
+    order, the entry index and the offsets of the entry, its key and its value … -/
+theorem C11_keyed (cm : List CMEntry) (o : Obj) (hinv : Inv o) (pre post : List Nat) (k : Key)
+    (h : volumes cm = pre ++ volsV (.object o.entries) ++ post) :
     mappedEntries cm pre.length o k =
-      some (((offsetsM (pre.length + 1) o.entries).zip (List.range o.entries.length)).filterMap
-        (fun p => if (o.entries[p.2]?).map (·.1) = some k then some (p.2, p.1.1, p.1.2.1, p.1.2.2) else none))
+      some ((posOf k o.entries).map (fun i =>
+        (i, entryOff (pre.length + 1) o.entries i, entryOff (pre.length + 1) o.entries i + 1,
+          entryOff (pre.length + 1) o.entries i + 2))) := mappedEntries_eq cm o hinv pre post k h
+
+/-- … which are the very offsets `iter_mapped` assigns to entry `i`. -/
+theorem C11_keyed_offsets (es : List (Key × JValue)) (o i : Nat) (hi : i < es.length) :
+    (offsetsM o es)[i]? = some (entryOff o es i, entryOff o es i + 1, entryOff o es i + 2) :=
+  offsetsM_get es o i hi
 
 /-! Non-vacuity: the repository's `mapped_entries` unit test, on the model. -/
 example :
